@@ -1129,6 +1129,7 @@ fn judge_fault(acc: &mut Acc, rds: &[Rd], originals: Option<&[&Val]>, stream: &[
                 ok = false;
             }
             (Exp::Err(maxc), Err(_)) => {
+                class = if i == 0 { "err:as-expected" } else { "err:as-expected-after-complete-pdus" };
                 if used > off + maxc { acc.fail("C07.fault.bounded", wit, format!("error only after {} octets, bound {maxc}", used - off)); ok = false }
             }
         }
@@ -1319,6 +1320,176 @@ fn judge_client_variants(acc: &mut Acc, seed: &ClientSeed, stream: &[u8], script
     }
     acc.evals += runs;
     acc.class(if !ok { "violation" } else if base.res.is_ok() { "variants-agree:step-ok" } else { "variants-agree:step-err" });
+}
+
+//------------ history: what happened before on the same thread ----------------
+
+/// A subject of the history space: an evaluation reduced to one comparable string.
+struct Subject { name: String, run: Box<dyn Fn() -> String + Send + Sync> }
+
+fn guarded(f: impl FnOnce() -> String) -> String { rpki_verif::guard(f).unwrap_or_else(|p| format!("PANIC {p}")) }
+
+/// The values the history subjects are built from: every PDU type, and pairs
+/// with the same identity but different content (same key identifier, same
+/// customer, same prefix).
+fn history_values() -> Vec<Val> {
+    let ski = [0xC3u8; 20];
+    vec![
+        Val::Key { v: 1, flags: 1, ski, asn: 64500, info: vec![1, 2, 3, 4, 5] },
+        Val::Key { v: 1, flags: 1, ski, asn: 64500, info: vec![9; 7] },
+        Val::Aspa { v: 2, flags: 1, customer: 64501, providers: vec![1, 2] },
+        Val::Aspa { v: 2, flags: 1, customer: 64501, providers: vec![3] },
+        Val::V4 { v: 1, flags: 1, plen: 8, mlen: 16, addr: 0x0A00_0000, asn: 1 },
+        Val::V4 { v: 1, flags: 0, plen: 8, mlen: 24, addr: 0x0A00_0000, asn: 2 },
+        Val::V6 { v: 1, flags: 1, plen: 32, mlen: 48, addr: 0x2001_0db8u128 << 96, asn: 1 },
+        Val::V6 { v: 1, flags: 0, plen: 32, mlen: 64, addr: 0x2001_0db8u128 << 96, asn: 2 },
+        Val::Key { v: 2, flags: 0, ski: [7; 20], asn: 64502, info: (0..91).map(|i| i as u8).collect() },
+        Val::Aspa { v: 2, flags: 0, customer: 64503, providers: (0..40).collect() },
+        Val::EodV0 { session: 7, serial: 8 },
+        Val::EodV1 { v: 2, session: 7, serial: 8, refresh: 1, retry: 2, expire: 3 },
+        Val::SerialNotify { v: 1, session: 7, serial: 8 },
+        Val::SerialQuery { v: 1, session: 7, serial: 8 },
+        Val::ResetQuery { v: 1 }, Val::CacheResponse { v: 1, session: 7 }, Val::CacheReset { v: 1 },
+        Val::Error { v: 1, code: 4, pdu: vec![1, 2, 0, 0, 0, 0, 0, 8], text: b"ver\xff".to_vec() },
+    ]
+}
+
+fn payload_of(b: &Built) -> Option<pdu::Payload> {
+    match b {
+        Built::V4(p) => Some(pdu::Payload::V4(*p)), Built::V6(p) => Some(pdu::Payload::V6(*p)),
+        Built::Key(p) => Some(pdu::Payload::RouterKey(p.clone())), Built::Aspa(p) => Some(pdu::Payload::Aspa(p.clone())),
+        _ => None,
+    }
+}
+
+fn client_obs(r: &ClientRun) -> String { format!("{:?} applied={:?} state={:?} sent={} end={:?}", r.res, r.applied, r.state, hex(&r.sent), r.end) }
+
+fn history_subjects(hv: &[(Val, Built, Vec<u8>)], cseeds: &[(u8, Option<(u16, u32)>, Vec<u8>, String)]) -> Vec<Subject> {
+    let mut out: Vec<Subject> = Vec::new();
+    for (val, built, wire) in hv {
+        let (b, w, name) = (built.clone(), wire.clone(), val.render());
+        out.push(Subject { name: format!("write {name}"), run: Box::new(move || guarded(|| {
+            let r = exec_write(&b, false, &[Ev::Settle]);
+            format!("{:?} {} vec={}", r.res, hex(&r.out), hex(&b.wire()))
+        })) });
+        let (b, name) = (built.clone(), val.render());
+        if b.has_enum_path() {
+            out.push(Subject { name: format!("enum-write {name} in 3-octet writes"), run: Box::new(move || guarded(|| {
+                let r = exec_write(&b, true, &[Ev::WriteChunk(3), Ev::Settle]); format!("{:?} {}", r.res, hex(&r.out))
+            })) });
+        }
+        let (w2, rd, name) = (w.clone(), readers_for(val.ty())[0], val.render());
+        out.push(Subject { name: format!("read {name}"), run: Box::new(move || guarded(|| {
+            let r = exec(&[rd], &w2, &closes(w2.len())[1]); format!("{:?} end={:?}", r.steps, r.end)
+        })) });
+        if let Some(p) = payload_of(built) {
+            let name = val.render();
+            out.push(Subject { name: format!("to_payload {name}"), run: Box::new(move || guarded(|| format!("{:?}", p.to_payload().map_err(|e| hex(e.as_ref()))))) });
+            let (w3, name) = (w.clone(), val.render());
+            out.push(Subject { name: format!("Payload::read+to_payload {name}"), run: Box::new(move || guarded(|| {
+                let r = exec(&[Rd::PayloadRead], &w3, &closes(w3.len())[0]);
+                match r.steps.first().map(|s| &s.res) { Some(Ok(Got::Payload(p))) => format!("{:?}", p.to_payload().map_err(|e| hex(e.as_ref()))), other => format!("{other:?}") }
+            })) });
+        }
+    }
+    // rejected evaluations
+    let (w, rd) = (hv[0].2.clone(), Rd::Read(Ty::RouterKey));
+    out.push(Subject { name: "read router key cut at 20".into(), run: Box::new(move || guarded(|| { let r = exec(&[rd], &w[..20], &closes(20)[0]); format!("{:?} end={:?}", r.steps, r.end) })) });
+    let w = hv[4].2.clone();
+    out.push(Subject { name: "Ipv6Prefix::read on an IPv4 prefix".into(), run: Box::new(move || guarded(|| { let r = exec(&[Rd::Read(Ty::V6)], &w, &closes(w.len())[0]); format!("{:?}", r.steps) })) });
+    out.push(Subject { name: "to_payload with prefix length 33".into(), run: Box::new(|| guarded(|| format!("{:?}",
+        pdu::Payload::V4(pdu::Ipv4Prefix::new(1, 1, 33, 33, Ipv4Addr::from(0), Asn::from_u32(1))).to_payload().map_err(|e| hex(e.as_ref()))))) });
+    for (init_v, state, stream, name) in cseeds.iter().cloned() {
+        let (st2, n2) = (stream.clone(), name.clone());
+        out.push(Subject { name: format!("client step {name}"), run: Box::new(move || guarded(|| client_obs(&exec_client(init_v, state, &stream, &closes(stream.len())[1])))) });
+        out.push(Subject { name: format!("client step {n2} cut at 30"), run: Box::new(move || guarded(|| client_obs(&exec_client(init_v, state, &st2, &closes(30)[0])))) });
+    }
+    out
+}
+
+/// A predecessor: an operation of the same API family that leaves by one particular exit.
+#[derive(Clone, Debug)]
+enum Pred {
+    /// Another subject, run to completion.
+    Subject(usize),
+    /// A write that is pending after k octets and is then dropped.
+    WriteCancelled(usize, bool, usize),
+    /// A write whose writer fails after k octets.
+    WriteError(usize, bool, usize),
+    /// A read that is pending after k octets and is then dropped.
+    ReadCancelled(usize, usize, usize),
+    /// A read whose stream fails (connection reset) after k octets.
+    ReadError(usize, usize, usize),
+    /// A read whose stream ends after k octets.
+    ReadEof(usize, usize, usize),
+    /// A client step dropped / failed / ended after k octets of the reply.
+    ClientCancelled(usize, usize), ClientError(usize, usize),
+}
+
+fn run_pred(p: &Pred, subjects: &[Subject], hv: &[(Val, Built, Vec<u8>)], cseeds: &[(u8, Option<(u16, u32)>, Vec<u8>, String)]) {
+    let _ = rpki_verif::guard(|| match p {
+        Pred::Subject(i) => { (subjects[*i].run)(); }
+        Pred::WriteCancelled(i, via, k) | Pred::WriteError(i, via, k) => {
+            let (b, via, k, fail) = (hv[*i].1.clone(), *via, *k, matches!(p, Pred::WriteError(..)));
+            SCHED.with(|s| s.borrow().run(async move {
+                let (sock, ctl) = sock_pair();
+                ctl.set_write_budget(Some(k));
+                let h = tokio::spawn(async move { let mut sock = sock; let _ = write_built(&b, via, &mut sock).await; sock });
+                quiesce(&[&ctl]).await;
+                if fail { ctl.fail_writes(io::ErrorKind::BrokenPipe); ctl.set_write_budget(None); quiesce(&[&ctl]).await; }
+                h.abort();
+                let _ = h.await;
+            }));
+        }
+        Pred::ReadCancelled(i, r, k) | Pred::ReadError(i, r, k) | Pred::ReadEof(i, r, k) => {
+            let (w, rd, k) = (hv[*i].2.clone(), readers_for(hv[*i].0.ty())[*r], *k);
+            let kind = match p { Pred::ReadError(..) => 1, Pred::ReadEof(..) => 2, _ => 0 };
+            SCHED.with(|s| s.borrow().run(async move {
+                let (sock, ctl) = sock_pair();
+                ctl.deliver(&w[..k]);
+                let h = tokio::spawn(async move { let mut sock = sock; let _ = run_reader(rd, &mut sock).await; sock });
+                quiesce(&[&ctl]).await;
+                if kind == 1 { ctl.fail_reads(io::ErrorKind::ConnectionReset); quiesce(&[&ctl]).await; }
+                if kind == 2 { ctl.close(); quiesce(&[&ctl]).await; }
+                h.abort();
+                let _ = h.await;
+            }));
+        }
+        Pred::ClientCancelled(i, k) | Pred::ClientError(i, k) => {
+            let (init_v, state, stream, _) = cseeds[*i].clone();
+            let (k, fail) = (*k, matches!(p, Pred::ClientError(..)));
+            SCHED.with(|s| s.borrow().run(async move {
+                let (sock, ctl) = sock_pair();
+                ctl.deliver(&stream[..k]);
+                let h = tokio::spawn(async move {
+                    let mut client = Client::with_initial_version(init_v, sock, Tgt::default(), state.map(|(s, n)| st(s, n)));
+                    let _ = client.step().await;
+                });
+                quiesce(&[&ctl]).await;
+                if fail { ctl.fail_reads(io::ErrorKind::ConnectionReset); quiesce(&[&ctl]).await; }
+                h.abort();
+                let _ = h.await;
+            }));
+        }
+    });
+}
+
+fn render_pred(p: &Pred, subjects: &[Subject], hv: &[(Val, Built, Vec<u8>)], cseeds: &[(u8, Option<(u16, u32)>, Vec<u8>, String)]) -> String {
+    match p {
+        Pred::Subject(i) => format!("[{}]", subjects[*i].name),
+        Pred::WriteCancelled(i, via, k) => format!("[write{} {} pending after {k} octets, dropped]", if *via { " (enum)" } else { "" }, hv[*i].0.render()),
+        Pred::WriteError(i, via, k) => format!("[write{} {} writer fails after {k} octets]", if *via { " (enum)" } else { "" }, hv[*i].0.render()),
+        Pred::ReadCancelled(i, r, k) => format!("[{} of {} pending after {k} octets, dropped]", readers_for(hv[*i].0.ty())[*r].render(), hv[*i].0.render()),
+        Pred::ReadError(i, r, k) => format!("[{} of {} stream fails after {k} octets]", readers_for(hv[*i].0.ty())[*r].render(), hv[*i].0.render()),
+        Pred::ReadEof(i, r, k) => format!("[{} of {} stream ends after {k} octets]", readers_for(hv[*i].0.ty())[*r].render(), hv[*i].0.render()),
+        Pred::ClientCancelled(i, k) => format!("[client step {} pending after {k} octets, dropped]", cseeds[*i].3),
+        Pred::ClientError(i, k) => format!("[client step {} stream fails after {k} octets]", cseeds[*i].3),
+    }
+}
+
+/// Runs `f` on an OS thread of its own (library thread-locals start out fresh).
+fn on_fresh_thread<T: Send>(f: impl FnOnce() -> T + Send) -> T {
+    std::thread::scope(|sc| std::thread::Builder::new().stack_size(8 << 20).spawn_scoped(sc, f).expect("cannot spawn a thread").join().expect("history thread died"))
 }
 
 //------------ main ----------------------------------------------------------
@@ -1643,6 +1814,168 @@ fn main() {
     report(&ctx, &sp, accs);
     sp.sample_str(|| format!("{} cut=20: {}", cseeds[9].name, show(&cstreams[9][..20])));
     sp.done(true, "every truncation point and every single header-field corruption of every PDU of every reply");
+
+    //--- (6) several PDUs queued in one stream, every reader, every order ----------
+    let sp = ctx.space("handed_out.queued",
+        "every sequence of 3 seed PDUs of equal version (one of every type) queued in ONE stream that is handed to a sequence of three reader calls, every combination of the readers that consume the types, delivered in one piece and with 1-octet reads, then closed, and once with the last octet of the stream missing: every complete PDU must be recovered equal to what was written (a reader call may not take or lose octets of the PDUs queued behind its own); non-trivial = every case");
+    let mut qjobs: Vec<(usize, usize)> = Vec::new();
+    for i in 0..sds.len() { for j in 0..sds.len() { if sds[i].version() == sds[j].version() { qjobs.push((i, j)) } } }
+    let accs: Vec<Acc> = qjobs.par_iter().map(|(i, j)| {
+        let mut acc = Acc::default();
+        for k in 0..sds.len() {
+            if sds[k].version() != sds[*i].version() { continue }
+            // the third position only for a rotating subset in quick (every type still occurs in every position)
+            if !thorough && (i + j + k) % 3 != 0 { continue }
+            let vals = [&sds[*i], &sds[*j], &sds[k]];
+            let stream: Vec<u8> = [&swires[*i][..], &swires[*j][..], &swires[k][..]].concat();
+            for ra in readers_for(vals[0].ty()) { for rb in readers_for(vals[1].ty()) { for rc in readers_for(vals[2].ty()) {
+                for script in [vec![Ev::Deliver(stream.len()), Ev::Close, Ev::Settle], vec![Ev::ReadChunk(1), Ev::Deliver(stream.len()), Ev::Settle, Ev::Close, Ev::Settle]] {
+                    let rds = [ra, rb, rc];
+                    let wit = || format!("pdus={} bytes={} readers={} sched={}", vals.iter().map(|v| v.render()).collect::<Vec<_>>().join("+"), show(&stream),
+                        rds.iter().map(|r| r.render()).collect::<Vec<_>>().join(","), render_script(&script));
+                    acc.nontrivial += 1;
+                    judge_fault(&mut acc, &rds, Some(&vals), &stream, &script, &wit);
+                }
+                // ... and with the last PDU one octet short: the first two are still recovered, the third is an error
+                let short = &stream[..stream.len() - 1];
+                let script = vec![Ev::Deliver(short.len()), Ev::Close, Ev::Settle];
+                let rds = [ra, rb, rc];
+                let wit = || format!("pdus={} bytes={} readers={} last octet missing sched={}", vals.iter().map(|v| v.render()).collect::<Vec<_>>().join("+"), show(short),
+                    rds.iter().map(|r| r.render()).collect::<Vec<_>>().join(","), render_script(&script));
+                acc.nontrivial += 1;
+                judge_fault(&mut acc, &rds, Some(&vals), short, &script, &wit);
+            } } }
+        }
+        acc
+    }).collect();
+    report(&ctx, &sp, accs);
+    sp.sample_str(|| format!("{}+{}+{}", sds[0].render(), sds[6].render(), sds[10].render()));
+    sp.done(true, &format!("triples of {} seeds of equal version{} x reader combinations x 2 read granularities", sds.len(), if thorough { "" } else { " (third position: every third seed, rotating)" }));
+
+    //--- (7) who else owns the octets -------------------------------------------------
+    let sp = ctx.space("ownership",
+        "router key info built from the same octets as sole owner / with a live clone / with a clone dropped just before / as a view into a larger buffer (offsets 0, 3) / from static memory, for lengths 0, 1, 5, 91, 300: the PDU written, read back and converted must be identical in all cases, and the other holders of the buffer unchanged; non-trivial = cases other than the sole owner");
+    {
+        let mut acc = Acc::default();
+        static STATIC_INFO: [u8; 300] = { let mut a = [0u8; 300]; let mut i = 0; while i < 300 { a[i] = (i as u8) ^ 0x3C; i += 1 } a };
+        for n in [0usize, 1, 5, 91, 300] {
+            let plain: Vec<u8> = STATIC_INFO[..n].to_vec();
+            let reference = rpki_verif::guard(|| Val::Key { v: 1, flags: 1, ski: [9; 20], asn: 5, info: plain.clone() }.build().wire());
+            for form in 0..6 {
+                acc.evals += 1; if form > 0 { acc.nontrivial += 1 }
+                let wit = || format!("router key info of {n} octets, ownership form {form} (0 sole owner, 1 live clone, 2 clone dropped before, 3 view at offset 0 of a larger buffer, 4 view at offset 3, 5 static)");
+                let r = rpki_verif::guard(|| -> Result<(), String> {
+                    let mut big = vec![0xEEu8; 3]; big.extend_from_slice(&plain); big.extend_from_slice(&[0xDD; 5]);
+                    let big = Bytes::from(big);
+                    let (bytes, keep): (Bytes, Option<Bytes>) = match form {
+                        0 => (Bytes::from(plain.clone()), None),
+                        1 => { let b = Bytes::from(plain.clone()); (b.clone(), Some(b)) }
+                        2 => { let b = Bytes::from(plain.clone()); let c = b.clone(); drop(c); (b, None) }
+                        3 => { let mut v = plain.clone(); v.extend_from_slice(&[0xDD; 5]); let b = Bytes::from(v); (b.slice(..n), Some(b)) }
+                        4 => (big.slice(3..3 + n), Some(big.clone())),
+                        _ => (Bytes::from_static(&STATIC_INFO[..n]), None),
+                    };
+                    let keep_before = keep.as_ref().map(|k| k.to_vec());
+                    let info = pdu::RouterKeyInfo::new(bytes).map_err(|e| e.to_string())?;
+                    let key = pdu::RouterKey::new(1, 1, [9; 20], Asn::from_u32(5), info.clone());
+                    let wire = Built::Key(key.clone()).wire();
+                    if Ok(&wire) != reference.as_ref() { return Err(format!("written {} for a sole owner {:?}", show(&wire), reference.as_ref().map(|w| show(w)))) }
+                    let back = exec(&[Rd::Read(Ty::RouterKey)], &wire, &closes(wire.len())[0]);
+                    match back.steps.first().map(|s| &s.res) {
+                        Some(Ok(Got::Pdu(Built::Key(k)))) => if *k != key || k.key_info().as_slice() != plain.as_slice() { return Err("read back differs".into()) },
+                        other => return Err(format!("read back: {other:?}")),
+                    }
+                    let item = pdu::Payload::RouterKey(key.clone()).to_payload().map_err(|_| "to_payload fails")?;
+                    if item.1.as_router_key().map(|k| k.key_info.as_slice().to_vec()) != Some(plain.clone()) { return Err("to_payload carries other octets".into()) }
+                    if info.clone().into_bytes().as_ref() != plain.as_slice() || key.clone().into_key_info().as_slice() != plain.as_slice() || info.is_empty() != plain.is_empty() || info.len() != n {
+                        return Err("accessors disagree with the octets given".into())
+                    }
+                    if keep.as_ref().map(|k| k.to_vec()) != keep_before { return Err("the other holder of the buffer sees different octets afterwards".into()) }
+                    Ok(())
+                });
+                match r { Ok(Ok(())) => acc.class(if form == 0 { "identical:sole-owner" } else { "identical:shared-or-view" }), Ok(Err(d)) => { acc.fail("C07.ownership", wit, d); acc.class("violation") } Err(p) => { acc.fail("C07.ownership", wit, p); acc.class("violation") } }
+            }
+        }
+        report(&ctx, &sp, vec![acc]);
+        sp.done(true, "5 lengths x 6 ownership forms");
+    }
+
+    //--- (8) history: the same evaluation after other operations on the same thread ---
+    let sp = ctx.space("history.independent",
+        "subjects: writes (own write, enum write in 3-octet pieces), reads, to_payload and Payload::read+to_payload of one PDU of every type and of pairs with the same identity but different content (same key identifier / customer / prefix), rejected reads and conversions, client steps (complete and cut); predecessors: every subject, and every PDU's write pending after k octets and dropped / failing after k octets, every reader pending after k octets and dropped / stream error after k octets / stream end after k octets, client steps dropped or failing after k octets of the reply, for EVERY k; each sequence (predecessor, then all subjects, forward and in reverse order) runs on an OS thread of its own and every observation is compared with the same subject evaluated first thing on a fresh thread (thorough: also pairs of predecessors); non-trivial = sequences whose predecessor does not run to successful completion");
+    {
+        let setup = rpki_verif::guard(|| {
+            let hv: Vec<(Val, Built, Vec<u8>)> = history_values().into_iter().map(|v| { let b = v.build(); let w = b.wire(); (v, b, w) }).collect();
+            let cs: Vec<(u8, Option<(u16, u32)>, Vec<u8>, String)> = cseeds.iter().zip(cstreams.iter())
+                .filter(|(s, _)| ["reset.v2", "serial.v1", "downgrade.v2-v1"].contains(&s.name.as_str()))
+                .map(|(s, st)| (s.init_v, s.state, st.clone(), s.name.clone())).collect();
+            (hv, cs)
+        });
+        match setup {
+            Err(p) => { sp.eval(); ctx.fail("C07.history.independent", "constructing the history values", p); sp.done(false, "stopped: values cannot be constructed"); }
+            Ok((hv, cs)) => {
+                let subjects = history_subjects(&hv, &cs);
+                let baseline: Vec<String> = subjects.par_iter().map(|s| on_fresh_thread(|| (s.run)())).collect();
+                let mut preds: Vec<Pred> = (0..subjects.len()).map(Pred::Subject).collect();
+                for (i, (val, built, wire)) in hv.iter().enumerate() {
+                    for k in 0..wire.len() {
+                        for via in [false, true] {
+                            if via && !built.has_enum_path() { continue }
+                            preds.push(Pred::WriteCancelled(i, via, k)); preds.push(Pred::WriteError(i, via, k));
+                        }
+                        for r in 0..readers_for(val.ty()).len() {
+                            preds.push(Pred::ReadCancelled(i, r, k)); preds.push(Pred::ReadError(i, r, k)); preds.push(Pred::ReadEof(i, r, k));
+                        }
+                    }
+                }
+                for (i, c) in cs.iter().enumerate() { for k in 0..c.2.len() { preds.push(Pred::ClientCancelled(i, k)); preds.push(Pred::ClientError(i, k)) } }
+                let n_single = preds.len();
+                // sequences: one predecessor; thorough: also two (over a thinned menu)
+                let mut seqs: Vec<Vec<Pred>> = preds.iter().map(|p| vec![p.clone()]).collect();
+                if thorough {
+                    let thin: Vec<&Pred> = preds.iter().filter(|p| match p {
+                        Pred::Subject(_) => true,
+                        Pred::WriteCancelled(_, _, k) | Pred::WriteError(_, _, k) | Pred::ReadCancelled(_, _, k) | Pred::ReadError(_, _, k) | Pred::ReadEof(_, _, k) => *k == 9,
+                        Pred::ClientCancelled(_, k) | Pred::ClientError(_, k) => *k == 30,
+                    }).collect();
+                    for a in &thin { for b in &thin { seqs.push(vec![(*a).clone(), (*b).clone()]) } }
+                }
+                let accs: Vec<Acc> = seqs.par_iter().map(|seq| {
+                    let mut acc = Acc::default();
+                    let failing = seq.iter().any(|p| !matches!(p, Pred::Subject(_)));
+                    for reverse in [false, true] {
+                        let order: Vec<usize> = if reverse { (0..subjects.len()).rev().collect() } else { (0..subjects.len()).collect() };
+                        let obs: Vec<String> = on_fresh_thread(|| {
+                            for p in seq { run_pred(p, &subjects, &hv, &cs) }
+                            order.iter().map(|i| (subjects[*i].run)()).collect()
+                        });
+                        acc.evals += obs.len() as u64;
+                        if failing { acc.nontrivial += 1 }
+                        let mut same = true;
+                        for (o, i) in obs.iter().zip(order.iter()) {
+                            if *o != baseline[*i] {
+                                same = false;
+                                let d = o.bytes().zip(baseline[*i].bytes()).position(|(a, b)| a != b).unwrap_or(o.len().min(baseline[*i].len()));
+                                let from = d.saturating_sub(40);
+                                acc.fail("C07.history.independent",
+                                    || format!("after {}{}: {}", seq.iter().map(|p| render_pred(p, &subjects, &hv, &cs)).collect::<Vec<_>>().join(" "),
+                                        if reverse { " (then the subjects in reverse order)" } else { "" }, subjects[*i].name),
+                                    format!("observation differs from the one on a fresh thread at character {d}: here ..{} fresh ..{}", trunc(&o[from.min(o.len())..], 160), trunc(&baseline[*i][from.min(baseline[*i].len())..], 160)));
+                            }
+                        }
+                        acc.class(if !same { "violation" } else if failing { "independent:after-failure-or-cancellation" } else { "independent:after-success" });
+                    }
+                    acc
+                }).collect();
+                report(&ctx, &sp, accs);
+                sp.set("subjects", serde_json::json!(subjects.iter().map(|s| s.name.clone()).collect::<Vec<_>>()));
+                sp.set("predecessors", serde_json::json!(n_single));
+                sp.set("sequences", serde_json::json!(2 * seqs.len()));
+                sp.sample_str(|| format!("after {}: {}", render_pred(&preds[subjects.len() + 20], &subjects, &hv, &cs), subjects[2].name));
+                sp.done(true, &format!("{} subjects after each of {} predecessors{}, both subject orders, one OS thread per sequence", subjects.len(), n_single, if thorough { " and after pairs over a thinned menu" } else { "" }));
+            }
+        }
+    }
 
     ctx.finish();
 }
